@@ -45,8 +45,14 @@ def run_cmp(cases, res):
                 x = A.mk(fx, np, *fxm, c['cx']); y = A.mk(fx, np, *fym, c['cy'])
                 got = [bool(r) for r in (x < y, x <= y, x == y, x != y, x > y, x >= y)]
                 gotn = [bool(r) for r in (x < c['num'], x <= c['num'], x == c['num'], x != c['num'], x > c['num'], x >= c['num'])]
+            # the plain number on the LEFT (Python and NumPy numbers): k < x is x > k, etc.
+            num = c['num']; gotl = {}
+            for name, k in (('py', num), ('np.float64', np.float64(num)), ('np.int64', np.int64(num)) if isinstance(num, int) else ('np.float32', np.float32(num) if float(np.float32(num)) == float(num) else np.float64(num))):
+                rs = (k < x, k <= x, k == x, k != x, k > x, k >= x)
+                gotl[name] = [bool(np.asarray(r).reshape(-1)[0]) for r in rs]
         except Exception as e:
             res.fail(c, 'C16: a comparison raised %s' % lib.exc_name(e), got=str(e)[:200]); continue
+        c['_gotl'] = gotl
         pend.append((c, got, gotn)); reqs.append([50] + e_fmt(*fxm) + [c['cx']] + e_fmt(*fym) + [c['cy']] + e_f64(float(c['num'])))
     outs = model_call(reqs)
     for (c, got, gotn), out in zip(pend, outs):
@@ -59,6 +65,10 @@ def run_cmp(cases, res):
             res.fail(c, 'C16: comparison of two fixed-point objects disagrees with the exact stored values', expected=dict(zip(OPS, want)), got=dict(zip(OPS, got))); continue
         if gotn != wantn:
             res.fail(c, 'C16: comparison with a plain number disagrees with the exact stored value', expected=dict(zip(OPS, wantn)), got=dict(zip(OPS, gotn))); continue
+        gotl = c.pop('_gotl'); wantl = [pyop(o, nv, xv) for o in OPS]
+        badl = [k for k, g in gotl.items() if g != wantl]
+        if badl:
+            res.fail(c, 'C16: comparison with a plain number on the left (%s) disagrees with the exact stored value' % badl[0], expected=dict(zip(OPS, wantl)), got=dict(zip(OPS, gotl[badl[0]]))); continue
         m = [bool(t) for t in out]
         if m[0:6] != got or m[6:12] != gotn or m[12:18] != want:
             res.fail(c, 'model Conv.fxp_cmp disagrees with the implementation although the property holds', expected=m, got=got + gotn); res.failures[-1]['no_input'] = True
@@ -89,6 +99,8 @@ def run_conv(cases, res):
                    'raw': int(np.asarray(x.raw()).reshape(-1)[0]), 'uraw': int(np.asarray(x.uraw()).reshape(-1)[0]),
                    'arr_asint': int(np.asarray(xa.astype(int)).reshape(-1)[0]), 'arr_uraw': int(np.asarray(xa.uraw()).reshape(-1)[0]),
                    'arr_val': lib.vals_of(xa.get_val())[0]}
+            x1 = A.mk(fx, np, s, nw, nf, [c['c']], shape=(1,))         # a length-1 array converts like a scalar
+            obs['len1'] = (int(x1), Fraction(float(x1)), bool(x1))
         except Exception as e:
             res.fail(c, 'C16: a conversion raised %s' % lib.exc_name(e), got=str(e)[:200]); continue
         pend.append((c, obs)); reqs.append([51] + e_fmt(s, nw, nf) + [c['c']])
@@ -100,6 +112,8 @@ def run_conv(cases, res):
         res.sample(c)
         if obs['get_val'] != v or obs['asfloat'] != v or obs['float'] != v or obs['arr_val'] != v:
             res.fail(c, 'C16: get_val / astype(float) / float() is not exactly code*2^-n_frac', expected=str(v), got={k: str(obs[k]) for k in ('get_val', 'asfloat', 'float', 'arr_val')}); continue
+        if obs['len1'] != (math.floor(v), v, c['c'] != 0):
+            res.fail(c, 'C16: int() / float() / bool() of a length-1 array are not those of its element', expected=(math.floor(v), str(v), c['c'] != 0), got=(obs['len1'][0], str(obs['len1'][1]), obs['len1'][2])); continue
         if obs['asint'] != math.floor(v) or obs['int'] != math.floor(v) or obs['arr_asint'] != math.floor(v):
             res.fail(c, 'C16: astype(int) / int() is not the floor of the stored value', expected=math.floor(v), got=(obs['asint'], obs['int'], obs['arr_asint'])); continue
         if obs['bool'] != (c['c'] != 0):
